@@ -1,19 +1,56 @@
 import vlib
 
+KEY_A = "iface-resync-list-failure-swallowed"
+KEY_B = "iface-resync-forgets-route-on-other-iface"
+
+_cache = {}          # coq term of a case -> known-finding key or None
+_state = {}
+
+
+def _classify_batch(ctx, terms):
+    """One extra coqc run: for every oracle-failing case, does the oracle accept the run of the model with fix A / fix B /
+    both applied (Spec.classify_case)?  That tells the two known findings from anything new."""
+    todo = [t for t in terms if t not in _cache]
+    if not todo:
+        return
+    failing, _ = _state["orig_eval"](ctx, CFG["imports"], "classify_case", todo, shard=CFG.get("shard", 400))
+    res = {i: (a, b) for (i, a, b) in failing}
+    for i, t in enumerate(todo):
+        if i not in res:
+            # (true, true): either both single fixes explain it or nothing does -> ask which
+            _cache[t] = None
+            continue
+        a, b = res[i]
+        _cache[t] = KEY_A if a else (KEY_B if b else KEY_A)   # (false,false) = needs both fixes; both are listed
+    # cases reported as (true,true) by classify_case: distinguish "both single fixes work" from "unexplained"
+    amb = [t for t in todo if _cache[t] is None]
+    if amb:
+        failing2, _ = _state["orig_eval"](ctx, CFG["imports"], "(fun c => (fixed_ok c true true, false))", amb, shard=CFG.get("shard", 400))
+        expl = {i: a for (i, a, b) in failing2}
+        for i, t in enumerate(amb):
+            _cache[t] = KEY_A if expl.get(i, False) else None
+
+
+def _classify(c):
+    return _cache.get(c["coq"])
+
+
 CFG = dict(
     imports=["From Verif.C17 Require Import Model Spec."],
     checker="check_case",
-    n=dict(quick=260, thorough=6000),
-    shard=40,
+    n=dict(quick=120, thorough=5000),
+    shard=20,
+    classify=_classify,
     rule="histories of 10-35 operations over 4 interfaces (cali1, cali2, eth0, vxlan.calico + the no-interface pseudo "
          "interface) x 6 destination CIDRs (+2 only used by other software) x 3 route classes x 2 metrics, under 6 "
          "ownership-policy configurations (MainTableOwnershipPolicy variants incl. NewMainTable, ExclusiveOwnershipPolicy): "
-         "SetRoutes/RouteUpdate/RouteRemove, interface up/down/delete/renumber with delayed or missing notifications, routes "
+         "SetRoutes/RouteUpdate/RouteRemove, interface up/down/flap/delete/renumber with delayed or missing notifications, routes "
          "added/removed by other software in Felix's table and in other tables, QueueResync/QueueResyncIface, clock steps, "
          "Apply with failures injected (through the mock's FailNext* flags) at chosen calls: connect, LinkList, RouteList "
-         "(error/EINTR), LinkByName (error/not found), per-interface RouteList, RouteReplace, RouteDel; every history ends "
-         "with failure-free Applies.  Non-trivial = at least two Applies and at least one injected failure hit, link change or "
-         "outside route; distinct by (configuration, operation list)",
+         "(error/EINTR), LinkByName (error/not found), per-interface RouteList, RouteReplace, RouteDel, one-shot or hitting "
+         "the inline retry too; 1 in 6 histories opens with a directed scenario (flap + listing failure; move + replace failure); "
+         "every history ends with failure-free Applies.  Non-trivial = at least two Applies and at least one injected failure "
+         "hit, link change or outside route; distinct by (configuration, operation list)",
     trusted=["Coq 8.16.1 kernel + vm_compute",
              "hand-written model coq/theories/C17/Model.v tied to felix/routetable + ownershippol by this correspondence run",
              "felix/netlinkshim/mocknetlink as the kernel (route map keyed by table/dst/priority, links)",
@@ -25,8 +62,24 @@ CFG = dict(
                  "the kernel flushes the routes of a link that goes down or away (EFlush)"],
 )
 
+
 def run(ctx):
-    return vlib.standard_flow(ctx, CFG)
+    # local helper (no change to lib/vlib.py): after each evaluation of the cases, classify the oracle failures in one batch
+    orig = vlib.coq_eval_cases
+    _state["orig_eval"] = orig
+
+    def wrapped(ctx_, imports, checker, cases, **kw):
+        failing, log = orig(ctx_, imports, checker, cases, **kw)
+        if checker == CFG["checker"]:
+            _classify_batch(ctx_, [cases[i] for (i, a, o) in failing if not o])
+        return failing, log
+
+    vlib.coq_eval_cases = wrapped
+    try:
+        return vlib.standard_flow(ctx, CFG)
+    finally:
+        vlib.coq_eval_cases = orig
+
 
 MANIFEST = dict(
     category="proof",
